@@ -621,6 +621,63 @@ func runC07(c *core.Ctx) {
 		})
 	})
 
+	c.Clause("D5", func() {
+		// Long-poll registration is atomic with the index comparison: store.afterIndex compares the caller's index with
+		// store.data.Index and hands out store.dataChanged inside ONE critical section of store.mu. If the comparison
+		// is made in another section (or through a helper that takes and drops the lock), a command applied in
+		// between replaces dataChanged after the comparison saw the old index: the poller waits on a channel that
+		// only the NEXT change closes, and a data node's cache stays stale while the cluster is quiet.
+		f := c.Fn(metap + ".(*store).afterIndex")
+		info := f.Info()
+		dataF := c.P.LookupField(metap, "store", "data")
+		chF := c.P.LookupField(metap, "store", "dataChanged")
+		c.Need(dataF != nil && chF != nil, "fields store.data, store.dataChanged")
+		var cmp, handout []*core.Event
+		for _, e := range f.Graph().Events {
+			switch e.Kind {
+			case core.EvCond:
+				if x, ok := e.Node.(ast.Expr); ok && mentionsField(info, x, dataF) {
+					cmp = append(cmp, e)
+				}
+			case core.EvReturn:
+				if x, _ := f.ResultExpr(e, 0); x != nil && mentionsField(info, x, chF) {
+					handout = append(handout, e)
+				}
+			}
+		}
+		c.Check("poll-registration-atomic", f.Name+"/compares-store.data.Index-itself", f.PosStr(), len(cmp) > 0,
+			"afterIndex does not compare the index with store.data.Index in its own critical section (a helper that locks and unlocks by itself makes the comparison and the hand-out of dataChanged two separate sections)")
+		c.Need(len(handout) > 0, "return of store.dataChanged in afterIndex")
+		held := map[*core.Event]bool{}
+		unheld := map[*core.Event]bool{}
+		f.ExploreLocks(func(e *core.Event, st core.LockState) {
+			ok := false
+			for _, h := range st.Held() {
+				if strings.Contains(h, ".mu#") {
+					ok = true
+				}
+			}
+			if ok {
+				held[e] = true
+			} else {
+				unheld[e] = true
+			}
+		})
+		for i, e := range append(append([]*core.Event{}, cmp...), handout...) {
+			c.Check("poll-registration-atomic", fmt.Sprintf("%s/under-store.mu#%d", f.Name, i+1), c.P.Pos(e.Pos()), held[e] && !unheld[e],
+				"store.data.Index / store.dataChanged is read without store.mu held")
+		}
+		// one section: the lock is released only by a deferred unlock
+		early := 0
+		for _, op := range f.LockOps() {
+			if !op.Acquire && !op.Defer {
+				early++
+			}
+		}
+		c.Check("poll-registration-atomic", f.Name+"/single-critical-section", f.PosStr(), early == 0,
+			"store.mu is released between the index comparison and the hand-out of dataChanged")
+	})
+
 	c.Clause("D4", func() {
 		f := c.Fn(metap + ".(*raftState).apply")
 		info := f.Info()
